@@ -46,7 +46,7 @@ fn pf(p: u64, s: u64, b: u64, x: u64) -> PoolFee {
     }
 }
 
-fn seed(zero_fee: bool) -> World {
+pub fn seed(zero_fee: bool) -> World {
     let mut w = World::new(
         3,
         vec![coin(10u128.pow(30), "uom"), coin(10u128.pow(30), "uusd"), coin(10u128.pow(30), "uusdc"), coin(10u128.pow(36), "ausdy")],
@@ -76,16 +76,16 @@ fn seed(zero_fee: bool) -> World {
     w
 }
 
-fn provide_msg(pool: &str, lock: Option<u64>) -> pm::ExecuteMsg {
+pub fn provide_msg(pool: &str, lock: Option<u64>) -> pm::ExecuteMsg {
     pm::ExecuteMsg::ProvideLiquidity { liquidity_max_slippage: None, swap_max_slippage: Some(Decimal::percent(50)), receiver: None, pool_identifier: pool.into(), unlocking_duration: lock, lock_position_identifier: None }
 }
 
-fn pools(w: &World) -> Vec<pm::PoolInfoResponse> {
+pub fn pools(w: &World) -> Vec<pm::PoolInfoResponse> {
     let r: pm::PoolsResponse = w.app.wrap().query_wasm_smart(w.pool_manager.clone(), &pm::QueryMsg::Pools { pool_identifier: None, start_after: None, limit: Some(50) }).unwrap();
     r.pools
 }
 
-fn accounts(w: &World) -> Vec<Addr> {
+pub fn accounts(w: &World) -> Vec<Addr> {
     let mut v = w.users.clone();
     v.push(w.pool_manager.clone());
     v.push(w.farm_manager.clone());
@@ -93,7 +93,7 @@ fn accounts(w: &World) -> Vec<Addr> {
     v
 }
 
-fn enabled(w: &World) -> Vec<Op> {
+pub fn enabled(w: &World) -> Vec<Op> {
     let mut ops = vec![];
     let ps = pools(w);
     for u in 1..3usize {
@@ -146,7 +146,7 @@ fn enabled(w: &World) -> Vec<Op> {
     ops
 }
 
-fn apply(w: &mut World, op: &Op) -> anyhow::Result<cw_multi_test::AppResponse> {
+pub fn apply(w: &mut World, op: &Op) -> anyhow::Result<cw_multi_test::AppResponse> {
     let pmaddr = w.pool_manager.clone();
     match op {
         Op::Swap { u, pool, offer, ask, amt, slip } => w.app.execute_contract(
@@ -192,7 +192,7 @@ fn note(st: &mut Stats, kind: &str, hist: &[Op], op: &Op, detail: String) {
     if e.1.is_empty() { e.1 = format!("hist={:?} op={:?} :: {}", hist, op, detail); }
 }
 
-fn bal_table(w: &World, lps: &[String]) -> BTreeMap<(usize, String), u128> {
+pub fn bal_table(w: &World, lps: &[String]) -> BTreeMap<(usize, String), u128> {
     let mut m = BTreeMap::new();
     for (i, a) in accounts(w).iter().enumerate() {
         for d in DENOMS.iter().map(|s| s.to_string()).chain(lps.iter().cloned()) {
